@@ -27,7 +27,7 @@ META = {
 META['explanation'] += ' ' + 'R6: header line spellings over the ParserText model - name case, SP / HTAB runs after the colon and before the CRLF, for both line parsers. R7: SPF network composer. R8: SPF mechanism names (with and without qualifier), version and modifier names over case patterns, and the term loop over 0..3 trailing spaces.'
 META['explanation'] += ' ' + "R10: media type parser evaluated on case patterns. R11: string enumerations whose tokens the specification matches case-insensitively (reviewed table with citations in sa/specs/text.json): the class's _code_eq is evaluated."
 
-META['explanation'] += ' ' + 'R12: quoted components evaluated through the real compose and _parse (quoted and unquoted spelling, base64 with the real codec).'
+META['explanation'] += ' ' + 'R12: quoted components evaluated through the real compose and _parse (quoted and unquoted spelling, base64 with the real codec). R13: the JSON valued fields write every member they hold, false and zero included (evaluated composer).'
 
 META['explanation'] += ' ' + 'R8 also: a term of another mechanism is declined with InvalidType whatever its length and qualifier.'
 HERE = os.path.dirname(os.path.dirname(os.path.abspath(__file__)))
@@ -235,6 +235,7 @@ def check(ctx, report):
     media_type_case(ctx, report)
     token_enums_case(ctx, report, spec)
     quoted_components(ctx, report)
+    json_fields_composer(ctx, report)
     report.floor('C18.R1', 24, 'named components')
 
 
@@ -1180,3 +1181,112 @@ def quoted_components(ctx, report, RULE='C18.R12'):
             report.add(RULE, '%s@quoted[%s]' % (k.construct, kind), text + ': optional quoting changes what is parsed, or the class does not accept what it writes')
     report.count(RULE, n)
     report.floor(RULE, 10, 'spellings of quoted components')
+
+
+# ---- R13: JSON valued header fields -------------------------------------------------------------------------------------------------
+
+def json_fields_composer(ctx, report, RULE='C18.R13'):
+    """A JSON valued header field (NEL) is composed as the object of its members.  The canonical spelling has to be one of the
+    spellings that parse back to the same object, so every member the object holds is written - ``false``, ``0`` and ``""`` are
+    values, not absences; only a member that is None has no textual form.  ``compose`` of every concrete FieldsJson class is
+    evaluated (sa.miniexec: attrs field table and validators modelled from the class body, json.dumps real) for objects whose
+    members are all False, all 0, all 'x', and with the optional members None: the text must hold exactly the members that are not
+    None, with the values held."""
+    import collections
+    import json as _json
+    from ..miniexec import ClassRef, Evaluator, Native, Obj, Raised, Unsupported, class_call_hook
+    model = ctx.model
+    report.rule(RULE, 'JSON valued fields: the composer writes every member that is not None with the value held (false / 0 are values)')
+    base = model.try_cls('FieldsJson')
+    if base is None:
+        report.error('%s: FieldsJson not found' % RULE)
+        return
+
+    class Optional(Native):
+        def __init__(self, inner):
+            self.validator = inner
+
+    def component_class(node):
+        names = [n for n in ast.walk(node) if isinstance(n, ast.Call) and ast.unparse(n.func).endswith('instance_of') and n.args]
+        k = model.try_cls(ast.unparse(names[0].args[0])) if names else None
+        return k
+    n = 0
+    for c in model.all_subclasses(base):
+        if c is base or c.abstract_methods or not c.has_attrs():
+            continue
+        f = c.resolve('compose')
+        if f is None:
+            continue
+        report.touch(f)
+        fields = []
+        for fld in c.attrs_fields():
+            if fld.validator_node is None:
+                fields = None
+                break
+            k = component_class(fld.validator_node)
+            if k is None:
+                fields = None
+                break
+            fields.append((fld.name, k, 'optional' in ast.unparse(fld.validator_node)))
+        if not fields:
+            report.undecided.append('%s: field table of %s not readable' % (RULE, c.name))
+            continue
+        table = collections.OrderedDict()
+        for name, k, optional in fields:
+            inner = Obj(type=ClassRef(k))
+            table[name] = Obj(name=name, validator=Optional(inner) if optional else inner, default=None)
+
+        def extra(node, ev, table=table):
+            d = ast.unparse(node.func)
+            if d in ('attr.fields_dict', 'attr.fields'):
+                return table if d.endswith('_dict') else tuple(table.values())
+            if d == 'is_validator_optional':
+                return isinstance(ev.ev(node.args[0]), Optional)
+            if d == 'json.dumps':
+                return _json.dumps(ev.ev(node.args[0]))
+            if d in ('collections.OrderedDict', 'OrderedDict', 'dict'):
+                return collections.OrderedDict(*[ev.ev(a) for a in node.args])
+            if d == 'type' and len(node.args) == 1 and isinstance(node.args[0], ast.Name) and node.args[0].id == 'self':
+                return ClassRef(c)
+            return NotImplemented
+        hook = class_call_hook(c, extra, model)
+        names_hook = hook.name_hook_for(f.module, None)
+        try:
+            canonical = {name: Evaluator({'cls': ClassRef(k)}, class_call_hook(k, None, model), class_call_hook(k, None, model).name_hook_for(k.module, None)).function(
+                k.resolve('get_canonical_name').node) for name, k, _ in fields}
+        except (Unsupported, Raised, AttributeError, TypeError) as e:
+            report.undecided.append('%s: canonical names of %s not evaluable: %s' % (RULE, c.name, e))
+            continue
+        for sample in (False, 0, 'x', True):
+            for drop_optional in (False, True):
+                n += 1
+                report.count(RULE)
+
+                class Me(Native):
+                    _repo_class = c
+                me = Me()
+                held = collections.OrderedDict()
+                for name, k, optional in fields:
+                    if optional and drop_optional:
+                        setattr(me, name, None)
+                        continue
+                    comp = Obj(value=sample, _get_value_as_simple_type=lambda sample=sample: sample)
+                    setattr(me, name, comp)
+                    held[canonical[name]] = sample
+                try:
+                    out = Evaluator({'self': me}, hook, names_hook).function(f.node)
+                    got = _json.loads(out.decode('ascii') if isinstance(out, (bytes, bytearray)) else out, object_pairs_hook=collections.OrderedDict)
+                except (Unsupported, Raised, AttributeError, TypeError, ValueError) as e:
+                    report.undecided.append('%s: compose of %s not evaluable: %s' % (RULE, c.name, str(e)[:80]))
+                    break
+                if list(got.items()) != list(held.items()):
+                    missing = [k_ for k_ in held if k_ not in got]
+                    report.add(RULE, '%s@members[%s]' % (f.construct, 'omitted' if missing else 'differ'),
+                               '%s whose members all hold %r%s composes %s, the members held are %s: %s' % (
+                                   c.name, sample, ' (optional ones None)' if drop_optional else '', dict(got), dict(held),
+                                   'a member that holds a value is left out and parses back as None' if missing else 'the text is not the object'))
+                    break
+            else:
+                continue
+            break
+    report.floor(RULE, 6, 'evaluated objects of JSON valued fields')
